@@ -83,18 +83,20 @@ class Clip(Contract):
 
     def configs(self, tier):
         for lo, hi in ((-128, 127), (0, 255), (-1, 0), (0, 1), (-2**51, 2**51 - 1), (0, 2**52 - 1)):
-            for carrier in ('f64', 'i64'):
+            for carrier in ('f64', 'i64', 'f64huge'):
                 for shape in ((), (1,), (2,), (3,)) if tier == 'thorough' else ((), (2,)):
                     yield dict(lo=lo, hi=hi, carrier=carrier, shape=list(shape))
 
     def inputs(self, cfg, D):
         n = nelem(cfg['shape'])
         if cfg['carrier'] == 'i64':
-            return {'x': [D.int('x%d' % i, -2**62, 2**62) for i in range(n)]}
+            return {'x': [D.int('x%d' % i, -2**63, 2**63 - 1) for i in range(n)]}
+        if cfg['carrier'] == 'f64huge':
+            return {'x': [D.dyadic('x%d' % i, -900) for i in range(n)]}           # integral doubles of any magnitude
         return {'x': [D.int('x%d' % i, -2**53, 2**53) for i in range(n)]}      # integral doubles
 
     def run(self, cfg, P, inp):
-        dt = {'i64': 'int64', 'f64': 'float64'}[cfg['carrier']]
+        dt = {'i64': 'int64', 'f64': 'float64', 'f64huge': 'float64'}[cfg['carrier']]
         x = P.arr(inp['x'], dtype=dt, shape=tuple(cfg['shape']))
         r = P.utils.clip(x, cfg['lo'], cfg['hi'])
         return {'r': r}
@@ -118,6 +120,8 @@ class Clip(Contract):
             el = [unM(ite(M(e) > val_max, val_max, ite(M(e) < val_min, val_min, M(e)))) for e in xs]
             # output dtype comes from the first element's result: the python int bound when it was clamped
             dt = a.dtype
+            if a.dtype.kind in 'iu':
+                dt = P.np.dtype('int64')          # python ints come back from the vectorized function
             if a.dtype.kind == 'f':
                 x0 = xs[0]
                 if not (x0 < val_max) or not (x0 > val_min):
